@@ -75,7 +75,8 @@ META = {
         "(major form x table EOL {SP LF, CR LF, SP CR} x W {[1 2 1],[1 3 2],[0 2 1]}, plus table/hybrid forms whose trailer dictionary follows the keyword on the same line, `trailer <<` and `trailer<<`) per revision; 3-revision histories over a "
         "subset family with major forms deviating from (table, table, table) in <= L3_major_dev revisions (thorough: all; 4 configurations, 2 for vectors with 3 deviations), "
         "thorough also 4-revision histories with <= 2 deviations. extension families: X1 one revision x stream/hybrid forms x W x xref-stream coding {none, Flate, Flate+Predictor 12} x generations {all 0, >0}; X2 two revisions, every user object defined then each one untouched/defined again/freed x 25 major form pairs x coding/generation modes; X3 (and thorough X4) /Prev chains of 3 (4) revisions over objects 10, 11 mixing definitions, free entries, re-definitions after a free, generations and compressed streams, major forms with <= X3_major_dev (X4: 2) deviations. Every prefix of an enumerated history is itself a member of the "
-        "family of shorter histories. damage part: 2 classic-table seeds plus 10 variants of the first seed whose content stream ends in every way (data directly before endstream, data ending in LF/CR/CRLF, blank lines, CR line ends, a single line, EOL LF/CRLF before endstream; /Length exact; quick: the first variant gets every damage kind, the others the operand/keyword/header kinds; thorough: all) x every startxref operand 0..len+8, 8 malformed operands, "
+        "family of shorter histories. long-history family (both tiers): 50/600/1500/3000 revisions, each update redefining one of three content streams in turn, every 500th adding an object and "
+        "redefining the catalog, the last redefining /Info; all tables / all xref streams / alternating table-stream-hybrid; caching on and off; extract_text must show the newest content of every page. damage part: 2 classic-table seeds plus 10 variants of the first seed whose content stream ends in every way (data directly before endstream, data ending in LF/CR/CRLF, blank lines, CR line ends, a single line, EOL LF/CRLF before endstream; /Length exact; quick: the first variant gets every damage kind, the others the operand/keyword/header kinds; thorough: all) x every startxref operand 0..len+8, 8 malformed operands, "
         "misspelt keywords, subsection headers with 1/3/non-numeric fields, every single-byte deletion and 3 single-byte insertions "
         "at every position of every table entry. A case is one document (history x physical form, or seed x damage); non-trivial = "
         "the model has at least one object number whose newest definition is not in the newest section, or any damage. "
@@ -89,7 +90,7 @@ META = {
         "cross-reference streams are written uncompressed, FlateDecode, or FlateDecode + /Predictor 12 (PNG Up on every row, /Columns = sum of W); other PNG row filters and LZW are not generated; encryption and /Prev cycles are not generated",
         "well-formed but wrong table offsets are not judged (damage is read as 'section unreadable'); damage to the trailer dictionary/keyword is not generated (the statement names the startxref offset and the cross-reference table)",
         "stream data found by the body scan may carry the end-of-line that precedes 'endstream' (accepted)",
-        "histories longer than 3 (thorough 4) revisions and object numbers outside the alphabet are not explored",
+        "between 4 and 50 revisions nothing is explored; the long histories (50..3000 revisions) have one fixed logical shape and 3 physical patterns; the recursion limit is left at its default",
         "BUFSIZ is set on the document's parser instance, so it also governs tokenisation of the body (object streams are parsed with the default size)",
         "the always-cache mutant is unobservable through answers and is not claimed",
     ],
@@ -231,8 +232,7 @@ def observe(data: bytes, caching: bool, bufsiz: int, nums: Sequence[int]) -> Dic
     try:
         doc = PDFDocument(parser, caching=caching)
     except Exception as e:  # noqa
-        tb = traceback.extract_tb(e.__traceback__)
-        obs["open_exc"] = f"{type(e).__name__}@{tb[-1].name}"
+        obs["open_exc"] = exc_name(e)
         return obs
     secs = []
     for x in doc.xrefs:
@@ -507,7 +507,8 @@ def seed_doc(which: int):
         if which == 0:
             out += b"%d 0 obj\n" % n + ser(v) + b"\nendobj\n"
         else:
-            out += b"%d 0 obj " % n + ser(v).replace(b"\nstream\n", b"\r\nstream\r\n") + b"\r\nendobj\r\n"
+            # value on the header line: "n 0 obj <<...>>" and, for every second object, "n 0 obj<<...>>"
+            out += b"%d 0 obj" % n + (b" " if order.index(n) % 2 == 0 else b"") + ser(v).replace(b"\nstream\n", b"\r\nstream\r\n") + b"\r\nendobj\r\n"
     xpos = len(out)
     table = table_bytes(offs, [0], eol)
     if which == 1:
@@ -653,8 +654,7 @@ def extract(data: bytes, bufsiz: int):
         try:
             return extract_text(io.BytesIO(data))
         except Exception as e:  # noqa
-            tb = traceback.extract_tb(e.__traceback__)
-            return ("EXC", f"{type(e).__name__}@{tb[-1].name}")
+            return ("EXC", exc_name(e))
     finally:
         PSBaseParser.BUFSIZ = old
 
@@ -763,6 +763,137 @@ def run_damage(st, which: int, kind: str, tier: str, lo: int = 0, hi: Optional[i
             st.sample({"seed": which, "damage": label, "bytes": len(data), "tail": data[-60:]})
 
 
+# ------------------------------------------------------------------- long histories
+LONG_REVISIONS = (50, 600, 1500, 3000)
+LONG_FORMS = ("tables", "streams", "alternating")
+LONG_CYCLE = (10, 11, 13)  # content streams of the three pages; revision r redefines LONG_CYCLE[r % 3]
+LONG_W = (1, 3, 2)  # offsets beyond 64 kB
+
+
+def long_revs(nrev: int, formmode: str):
+    """Initial body + nrev-1 incremental updates (plain loop).  Revision r > 0 redefines one of the three content
+    streams; every 500th revision also adds a new object and redefines the catalog; the last one redefines /Info."""
+
+    def content(r):
+        return Stream({}, b"BT /F1 9 Tf 20 20 Td (r%d) Tj ET" % r)
+
+    revs = []
+    for r in range(nrev):
+        objs: Dict[int, Any] = {}
+        if r == 0:
+            objs[1] = catalog(0)
+            objs[2] = {"Title": b"rev 0"}
+            objs[3] = {"Type": N("Pages"), "Kids": [Ref(5), Ref(7), Ref(9)], "Count": 3, "MediaBox": [0, 0, 100, 60],
+                       "Resources": {"Font": {"F1": Ref(4)}}}
+            objs[4] = {"Type": N("Font"), "Subtype": N("Type1"), "BaseFont": N("Helvetica")}
+            for page, c in zip((5, 7, 9), LONG_CYCLE):
+                objs[page] = {"Type": N("Page"), "Parent": Ref(3), "Contents": Ref(c)}
+                objs[c] = content(0)
+        else:
+            objs[LONG_CYCLE[r % 3]] = content(r)
+            if r % 500 == 0:
+                objs[20 + r // 500 - 1] = {"AddedIn": r, "K": N("New%d" % r)}
+                objs[1] = catalog(r)
+        if r == nrev - 1 and r:
+            objs[2] = {"Title": b"rev %d" % r}
+        if formmode == "tables":
+            form = "T"
+        elif formmode == "streams":
+            form = "S"
+        else:
+            form = "TSH"[(r + r // 3) % 3]
+        revs.append({"objs": objs, "root": 1, "info": 2, "form": form, "pack": False, "eol": EOLS[0], "W": LONG_W})
+    return revs
+
+
+def long_expected_text(nrev: int) -> List[str]:
+    newest = {}
+    for r in range(nrev):
+        for c in (LONG_CYCLE if r == 0 else (LONG_CYCLE[r % 3],)):
+            newest[c] = r
+    return ["r%d" % newest[c] for c in LONG_CYCLE]
+
+
+def recursion_site(e: BaseException) -> str:
+    """The pdfminer function that recurses: most frequent among the innermost pdfminer frames."""
+    import collections
+
+    names = [f.name for f in traceback.extract_tb(e.__traceback__) if "/pdfminer/" in f.filename.replace("\\", "/")]
+    return collections.Counter(names[-80:]).most_common(1)[0][0] if names else "?"
+
+
+def exc_name(e: BaseException) -> str:
+    if isinstance(e, RecursionError):
+        return f"RecursionError@{recursion_site(e)}"
+    tb = traceback.extract_tb(e.__traceback__)
+    return f"{type(e).__name__}@{tb[-1].name}"
+
+
+def long_sig(sig: str) -> str:
+    rest = sig[len("C02/") :]
+    if rest.startswith("open:RecursionError@"):
+        rest = rest[len("open:") :]
+    return "C02/long-history:" + rest
+
+
+def judge_long(case: Dict[str, Any]) -> List[Tuple[str, Any, Any, str]]:
+    nrev, formmode = case["params"]
+    data = case["data"]
+    revs = long_revs(nrev, formmode)
+    data2, model = write_history(revs, every_prefix=False)
+    exp = expectation(model)
+    # probes: every logical object, and the container objects of the first, last and every 500th revision
+    containers = sorted(n for n in exp["values"] if n >= 40)
+    probe = [n for n in exp["values"] if n < 40] + containers[:2] + containers[-2:] + [n for n in containers if ((n - 40) // 2) % 500 == 0]
+    exp["values"] = {n: exp["values"][n] for n in sorted(set(probe))}
+    tag = f"{nrev} revisions, {formmode}"
+    out: List[Tuple[str, Any, Any, str]] = []
+    stats = case.setdefault("_stats", {})
+    for caching in (True, False):
+        c = {"part": "history", "data": data, "caching": caching, "bufsiz": 4096, "expect": exp, "newest_form": formmode, "def_form": {}}
+        res = judge_history(c)
+        stats[f"caching={caching}"] = res[0][0] if res else "ok"
+        for sig, e, o, what in res:
+            sig = long_sig(sig)
+            if not any(x[0] == sig for x in out):
+                # keep the artefact small: the section lists of thousands of revisions are summarised
+                if isinstance(e, list) and len(e) > 12:
+                    e, o = {"sections": len(e)}, {"sections": len(o) if isinstance(o, list) else o}
+                out.append((sig, e, o, f"{tag}, caching={caching}: {what}"))
+    text = extract(data, 4096)
+    etext = long_expected_text(nrev)
+    if isinstance(text, tuple):
+        sig = "C02/long-history:" + (text[1] if text[1].startswith("RecursionError@") else "extract_text:" + text[1])
+        stats["extract_text"] = sig
+        if not any(x[0] == sig for x in out):
+            out.append((sig, etext, text[1], f"{tag}: extract_text raised"))
+    else:
+        labels = [chunk.strip() for chunk in text.split("\x0c")[:-1]]
+        stats["extract_text"] = "ok" if labels == etext else "text"
+        if labels != etext:
+            out.append(("C02/long-history:text-not-newest", etext, labels, f"{tag}: the pages do not show the content written by the newest revision that defines it"))
+    return out
+
+
+def fam_long(st, tier, nrev, formmode):
+    revs = long_revs(nrev, formmode)
+    data, model = write_history(revs, every_prefix=False)
+    case = {"part": "long", "params": (nrev, formmode), "data": data}
+    res = judge_long(case)
+    stats = case.pop("_stats", {})
+    for sig, e, o, what in res:
+        st.violation(sig, case, e, o, what)
+    st.case(None, nontrivial=True, outcome=("long", nrev, formmode, tuple(sorted(stats.items()))))
+    st.states += nrev
+    st.transitions += 2 * nrev
+    st.traces += 1
+    st.add("openings", 2)
+    st.add("long_history_revisions", nrev)
+    if nrev == 600:
+        st.sample({"long_history": True, "revisions": nrev, "forms": formmode, "bytes": len(data), "sections": len(model["sections"][-1]),
+                   "expected_text": long_expected_text(nrev), "results": stats})
+
+
 # ---------------------------------------------------------------------------- shards
 REF_CONFIG = (True, 4096)
 
@@ -826,6 +957,7 @@ def shards(tier):
     if b["X4"]:
         v4 = [v for v in state_vectors((10, 11)) if v[1] != "f"]
         out += [("X4", i, j, k) for i in range(len(v4)) for j in range(len(v4)) for k in range(len(v4))]
+    out += [("LONG", nrev, fm) for nrev in LONG_REVISIONS for fm in LONG_FORMS]
     for which, kinds in seed_ids(tier):
         n = seed_doc(which)[1]["len"] + 9
         step = 40
@@ -953,6 +1085,8 @@ def run_shard(shard, tier, st):
     elif fam == "X4":
         v4 = [v for v in state_vectors((10, 11)) if v[1] != "f"]
         fam_xn(st, tier, 4, (10, 11), [v4[i] for i in shard[1:]], ("none", "recat", "none", "newroot"), MODES6[1::2] + MODES6[:1], 2, diff)
+    elif fam == "LONG":
+        fam_long(st, tier, shard[1], shard[2])
     elif fam == "DMG":
         run_damage(st, shard[1], shard[2], tier, shard[3], shard[4])
     else:
@@ -962,6 +1096,9 @@ def run_shard(shard, tier, st):
 def replay(case):
     if case.get("part") == "damage":
         res = judge_damage(case)
+    elif case.get("part") == "long":
+        case["params"] = tuple(case["params"])
+        res = judge_long(case)
     else:
         exp = case["expect"]
         # JSON round trip turns int keys of plain dicts back through $d; lists stay lists
